@@ -288,6 +288,92 @@ theorem lookup_pruned (H : Bytes → Bytes) (ts ps : Cell) (st acc : PCell) (key
     simpa using this
   rw [hinfo, (hags.2 0).1, (hinv 0 (by omega)).1]
 
+/-! ### the header: what the block hash binds of `root[2]` -/
+
+theorem ofCells_get (H : Bytes → Bytes) : ∀ (cs : List Cell) (ps : List PCell), PCell.ofCells H cs = some ps →
+    ∀ (i : Nat) (p : PCell), ps[i]? = some p → ∃ c, cs[i]? = some c ∧ PCell.ofCell H c = some p
+  | [], ps, h, i, p, hp => by simp [PCell.ofCells] at h; subst h; simp at hp
+  | c :: cs, ps, h, i, p, hp => by
+    simp only [PCell.ofCells, Option.bind_eq_bind, Option.bind_eq_some_iff, Option.pure_def, Option.some.injEq] at h
+    obtain ⟨q, hq, qs, hqs, rfl⟩ := h
+    cases i with
+    | zero => simp at hp; subst hp; exact ⟨c, by simp, hq⟩
+    | succ i => simp at hp; simpa using ofCells_get H cs qs hqs i p hp
+
+theorem ordUnprunedL_get : ∀ (cs : List Cell), OrdUnprunedL cs → ∀ (i : Nat) (c : Cell), cs[i]? = some c → OrdUnpruned c
+  | [], _, i, c, h => by simp at h
+  | d :: ds, hu, i, c, h => by
+    rw [OrdUnprunedL] at hu
+    cases i with
+    | zero => simp at h; subst h; exact hu.1
+    | succ i => simp at h; exact ordUnprunedL_get ds hu.2 i c h
+
+theorem agrees_length (H : Bytes → Bytes) : ∀ (ps ts : List Cell) (l : Nat), Binding.Agrees H l ps ts → ps.length = ts.length
+  | [], ts, l, h => by rw [Binding.Agrees] at h; subst h; rfl
+  | p :: ps, ts, l, h => by
+    rw [Binding.Agrees] at h
+    obtain ⟨t, ts', rfl, _, h2⟩ := h
+    simp [agrees_length H ps ts' l h2]
+
+/-- If the body `pb` of an accepted header proof shows a Merkle update cell at `root[2]`, then every tree `TB` that agrees
+with `pb` at level 0 and has no pruned branch below ordinary cells has at ITS `root[2]` a Merkle update cell with the same
+data bits (so the same stored new-state hash). -/
+theorem header_transfer (H : Bytes → Bytes) (pb TB : Cell) (hdr su : PCell) (hobj : PCell.ofCell H pb = some hdr)
+    (hag : Agree H 0 pb TB) (hu : OrdUnpruned TB) (shp : Shape pb) (h2 : hdr.refs[2]? = some su)
+    (hk : su.info.kind = 4) :
+    ∃ suT, (cellView.refs TB)[2]? = some suT ∧ cellView.kind suT = 4 ∧ cellView.bits suT = su.info.bits := by
+  cases pb with
+  | mk kp bp rp =>
+    cases TB with
+    | mk kt bt rt =>
+      simp only [PCell.ofCell, Option.bind_eq_bind, Option.bind_eq_some_iff, Option.pure_def, Option.some.injEq] at hobj
+      obtain ⟨rs, hrs, i, hi, rfl⟩ := hobj
+      simp only [PCell.refs] at h2
+      obtain ⟨sup, hsup, hosup⟩ := ofCells_get H rp rs hrs 2 su h2
+      have hlen : 3 ≤ rp.length := by
+        have := (List.getElem?_eq_some_iff.1 hsup).1
+        omega
+      rw [Shape] at shp
+      have hkp : kp = -1 := by
+        rcases shp.2.1 with h | ⟨_, h, _⟩ | ⟨_, h⟩ | ⟨_, h⟩ | ⟨_, h⟩
+        · exact h
+        · rw [h] at hlen; simp at hlen
+        · rw [h] at hlen; simp at hlen
+        · omega
+        · omega
+      rw [Agree] at hag
+      rw [OrdUnpruned] at hu
+      obtain ⟨⟨sp, st, hsp, hst, hh⟩, hc⟩ := hag
+      rcases hc with h1 | h1 | ⟨ek, eb, en, hkids⟩
+      · exact absurd h1.1 (by rw [hkp]; decide)
+      · exact absurd h1.1 hu.1
+      · have hka := hkids sp hsp 0 (Nat.le_refl _) (sigB_zero _)
+        have hmu : muOf kp = 0 := by rw [hkp]; decide
+        rw [Nat.zero_add, hmu] at hka
+        have hkt : kt = -1 := by rw [← ek]; exact hkp
+        have hut := hu.2 hkt
+        have hlt : 2 < rt.length := by rw [← en]; omega
+        obtain ⟨suT, hsuT⟩ : ∃ suT, rt[2]? = some suT := ⟨rt[2], List.getElem?_eq_getElem hlt⟩
+        have hagu := Agrees_get H rp rt 0 hka 2 sup suT hsup hsuT
+        have huu := ordUnprunedL_get rt hut 2 suT hsuT
+        refine ⟨suT, hsuT, ?_⟩
+        cases sup with
+        | mk ks bs rsu =>
+          cases suT with
+          | mk kT bT rT =>
+            simp only [PCell.ofCell, Option.bind_eq_bind, Option.bind_eq_some_iff, Option.pure_def, Option.some.injEq] at hosup
+            obtain ⟨rs', _, i', hi', rfl⟩ := hosup
+            obtain ⟨e1, e2, _⟩ := construct_fields H ks bs _ i' hi'
+            simp only [PCell.info] at hk
+            have hks : ks = 4 := by rw [← e1]; exact hk
+            rw [Agree] at hagu
+            rw [OrdUnpruned] at huu
+            rcases hagu.2 with h1 | h1 | ⟨ek', eb', _, _⟩
+            · exact absurd h1.1 (by rw [hks]; decide)
+            · exact absurd h1.1 huu.1
+            · simp only [cellView, PCell.info]
+              exact ⟨by rw [← ek', hks], by rw [← eb', e2]⟩
+
 /-! ### building the hypotheses for trees of ordinary cells (used by the non-vacuity examples) -/
 
 theorem shape_ord (bits : Bits) (refs : List Cell) (h : refs.length ≤ 4) (hs : Shapes refs) : Shape (.mk (-1) bits refs) := by
